@@ -48,7 +48,7 @@ var fnChar = &ugo.Function{Name: "fchar", Value: func(args ...ugo.Object) (ugo.O
 // ArgExtras are the values added to ValuePool for C19.
 func ArgExtras() []ugo.Object {
 	var p []ugo.Object
-	for _, i := range []int64{-2, 3, 7, 255, 256, -255, 1 << 16, 1<<31 - 1, -(1 << 31), 1<<32 - 1, 1 << 40, 1 << 47, 1 << 48, 1 << 61, 1 << 62, -(1 << 62), 1<<62 + 1, math.MaxInt64 - 1} {
+	for _, i := range []int64{-2, 3, 7, 255, 256, -255, 1 << 16, 15000000 /* 15 ms as a duration: above time.Sleep's 10 ms polling step */, 1<<31 - 1, -(1 << 31), 1<<32 - 1, 1 << 40, 1 << 47, 1 << 48, 1 << 61, 1 << 62, -(1 << 62), 1<<62 + 1, math.MaxInt64 - 1} {
 		p = append(p, ugo.Int(i))
 	}
 	p = append(p, ugo.Uint(1<<31), ugo.Uint(1<<62), ugo.Float(-0.5), ugo.Float(1e10), ugo.Float(-1e300), ugo.Char('%'))
